@@ -82,33 +82,6 @@ fn c03_find_or_create_local_time_type() {
     assert!(tz.types[0].offset == o0 && tz.types[0].is_dst == d0 && tz.types[1].offset == o1 && tz.types[1].is_dst == d1);
 }
 
-//@harness c18_find_or_create_designation
-//@target shared::TzifOwned::find_or_create_designation (src/shared/tzif.rs)
-//@prop C18 C03 C17
-//@tier thorough
-//@features alloc
-//@timeout 1500
-//@bounded designation table "AB\0CD\0" (concrete), needle in {AB,CD,EF}
-//@doc Some((a,b)) => designations[a..b] == needle (no trailing NUL), existing entries are re-used, a new entry is appended NUL-terminated
-#[kani::proof]
-#[kani::unwind(12)]
-fn c18_find_or_create_designation() {
-    let mut tz = mk(Vec::new(), "AB\0CD\0");
-    let which: u8 = kani::any(); kani::assume(which < 3);
-    let needle = if which == 0 { "AB" } else if which == 1 { "CD" } else { "EF" };
-    let r = tz.find_or_create_designation(needle);
-    match r {
-        Some((a, b)) => {
-            let (a, b) = (usize::from(a), usize::from(b));
-            assert!(&tz.fixed.designations[a..b] == needle);
-            if which == 0 { assert!(a == 0 && b == 2); }
-            if which == 1 { assert!(a == 3 && b == 5); }
-            if which == 2 { assert!(a == 6 && b == 8 && tz.fixed.designations.len() == 9); }
-        }
-        None => assert!(false),
-    }
-}
-
 //@harness c17_tzif_header
 //@target shared::tzif::Header::{parse,data_block_len,transition_times_len,transition_types_len,local_time_types_len,time_zone_designations_len,leap_second_len,standard_wall_len,ut_local_len,is_32bit} (src/shared/tzif.rs)
 //@prop C17 C05
